@@ -120,7 +120,7 @@ J('Create.alloc_guard', 'h_rsd_create', ['C08', 'C18', 'C02'], defines=DEFS + ['
   unwind_reason='varint recursion <= 5 (+ scalar reads); every path ends at the allocation, no input-length loop is entered; unwinding assertions on', no_vacuity=True)
 J('Create.bounded', 'h_rsd_create', ['C08', 'C02'], defines=DEFS + ['-DCREATE_MAXBYTES=4'], unwind=66, solver='cadical',
   unwind_reason='bounded: at most 4 input bytes after the reader position (<= 3 table tokens, zero runs <= 64 symbols each); look-up table builder by contract',
-  replace=['RAnsDecoder_rans_build_look_up_table'], timeout=3000, cost=8, cbmc=['--object-bits', '10'], tier='thorough')
+  replace=['RAnsDecoder_rans_build_look_up_table'], timeout=3000, cost=8, cbmc=['--object-bits', '10'], tier='thorough', may_time_out=True)
 J('Create.zero_run.contract', 'h_enf_RSD_Create_zero_run', ['C08', 'C02', 'C18'], enforce='RSD_Create_zero_run', loops=True)
 J('table.entry.rt', 'h_table_entry_rt', ['C08', 'C05'], unwind=10, unwind_reason='at most 2 extra bytes per probability (22 bits), varint-free; byte appends of the vector model; unwinding assertions on')
 J('table.zero_run.rt', 'h_table_zero_run_rt', ['C08'], unwind=68, unwind_reason='bounded: a table of 66 entries (a zero run covers at most 64); unwinding assertions on', timeout=900, cost=4)
